@@ -225,7 +225,14 @@ def rule_L5(ctx) -> None:
         ctx.refuted("L5", "Message.SerializeToString->bytes", "returns " + "; ".join(show(p.value) for p in paths if p.value), mod.loc(fs),
                     "SerializeToString does not return bytes(self)")
 
-    # delimiter: under delimit == SIZE_DELIMITED the first emission is dump_varint(len(self), stream)
+    rule_L5d(ctx, "L5")
+
+
+def rule_L5d(ctx, rule: str = "L5") -> None:
+    """the delimiter: under delimit == SIZE_DELIMITED everything dump writes after the size prefix is what the prefix counts -
+    the prefix is len(self) (whose agreement with the written bytes is L1), or the size of a local buffer that is then the only
+    thing written after it; without the option no prefix is written"""
+    mod = ctx.repo.mod(M_INIT)
     dump = mod.func("Message.dump")
     params = [a.arg for a in dump.args.args]
     stream = params[1]
@@ -237,9 +244,11 @@ def rule_L5(ctx) -> None:
     bad = None
     n = 0
     for val in (True, False):
-        paths = interp_for(mod, assume={atom: val}).run(dump)
+        paths = interp_for(mod, assume={atom: val, N(delimit): val}, fork_ifexp=True).run(dump)
         n += len(paths)
         for p in paths:
+            if p.outcome == "raise":
+                continue
             emits = []
             for e in p.events:
                 if e.kind != "call" or e.depth != 0:
@@ -251,10 +260,36 @@ def rule_L5(ctx) -> None:
                     emits.append(("varint", e))
             prefix = [e for k, e in emits if k == "varint" and size_term(e.data[2][0]) == _sum([("len", N("self"))])]
             if val:
-                if not emits or emits[0][0] != "varint" or emits[0][1] not in prefix or len(prefix) != 1 or emits[0][1].loops:
+                varints = [(i_, e) for i_, (k, e) in enumerate(emits) if k == "varint" and not e.loops]
+                if emits and emits[0][0] == "varint" and emits[0][1] in prefix and len(prefix) == 1 and not emits[0][1].loops:
+                    pass
+                elif len(varints) == 1:
+                    # a prefix measured on a local buffer: B.tell() / len(B.getvalue()) / len(B), followed by writing exactly B
+                    i_, e = varints[0]
+                    P = e.data[2][0]
+                    buf = None
+                    if P[0] == "call" and P[1][0] == "a" and P[1][2] == "tell" and not P[2]:
+                        buf = P[1][1]
+                    elif P[0] == "call" and dotted(P[1]) == "len" and len(P[2]) == 1:
+                        inner = P[2][0]
+                        buf = inner[1][1] if inner[0] == "call" and inner[1][0] == "a" and inner[1][2] in ("getvalue", "getbuffer") else inner
+                    after = [x for k, x in emits[i_ + 1:]]
+                    before = emits[:i_]
+                    def is_buf(t):
+                        return t == buf or (t[0] == "call" and t[1][0] == "a" and t[1][2] in ("getvalue", "getbuffer") and t[1][1] == buf) or (
+                            t[0] == "call" and dotted(t[1]) in ("bytes", "memoryview") and len(t[2]) == 1 and is_buf(t[2][0]))
+                    if buf is None or buf == N(stream):
+                        bad = f"delimit=SIZE_DELIMITED: the size prefix {show(P)} is neither len(self) nor the size of a local buffer"
+                    elif before:
+                        bad = f"delimit=SIZE_DELIMITED: {show(before[0][1].data)} is written before the size prefix"
+                    elif len(after) != 1 or not (after[0].data[2] and is_buf(after[0].data[2][0])):
+                        extra = [show(x.data) for x in after if not (x.data[2] and is_buf(x.data[2][0]))]
+                        bad = (f"delimit=SIZE_DELIMITED: the size prefix is {show(P)}, the size of the buffer only, but after it dump also writes {extra[:2]}: those bytes (the unknown "
+                               "fields) lie outside the announced frame")
+                else:
                     bad = f"delimit=SIZE_DELIMITED: first emission is not a single dump_varint(len(self), {stream}) ({[show(e.data) for _, e in emits[:2]]})"
             else:
-                if prefix:
+                if prefix or any(k == "varint" and not e.loops for k, e in emits):
                     bad = "length prefix written although delimit is off"
             if bad:
                 break
@@ -262,10 +297,10 @@ def rule_L5(ctx) -> None:
             break
     ctx.count(n)
     if bad:
-        ctx.refuted("L5", "Message.dump:delimiter", bad, mod.loc(dump), bad,
+        ctx.refuted(rule, "Message.dump:delimiter", bad[:120], mod.loc(dump), bad,
                     "m.dump(s, SIZE_DELIMITED) and compare with encode_varint(len(bytes(m))) + bytes(m)")
     else:
-        ctx.proved("L5", "Message.dump:delimiter", mod.loc(dump), f"{n} paths")
+        ctx.proved(rule, "Message.dump:delimiter", mod.loc(dump), f"{n} paths")
 
 
 def run(ctx) -> None:
